@@ -30,7 +30,7 @@ for _p, _t in {
     "C04": "Design: TLC checks on GenerateMC (all choice sequences x target grid per instance) that every bond joins two unused, mutually compatible descriptors with their order (invariants IBonds, action property AttachSound). Conformance: the implementation's complete choice tree of ~70 bounded instances (all archetypes, negative instances whose transition lists point at incompatible descriptors) and recorded random streams of long instances are validated node by node against the spec; at every return the generated molecule must equal, atom by atom and bond by bond, the molecule the spec's residue tree denotes.",
     "C05": "Design: TLC checks TreeInv / Connected / MassInv on every reachable state of GenerateMC. Conformance: every returned molecule of every explored schedule must equal the spec's assembly of whole token copies (element, charge, isotope, aromaticity, hydrogen count per atom, internal bonds, one bond per attachment), be sanitisable, and have mass = sum of residue masses; chemistry-rich token families (aromatic, charged, bracket, isotopic, polycyclic).",
     "C06": "Design: TLC checks on GenerateMC WellPosed (no error reachable) for the instances the analysis calls well-posed, Closed / ElementOrder / NeighbourBonds / TerminalsRespected / EndGroupsAreLeaves in every done state, and the liveness property Termination under weak fairness without state constraint. Conformance: on every explored schedule the implementation returns exactly when the spec is done and raises exactly when the spec reaches error; the same done-state predicates are evaluated on the state that follows the implementation.",
-    "C07": "Design: TLC checks StopRule and GrowOnlyBelowTarget on GenerateMC over a target grid bracketing every cumulative mass (+-1 mDa, equal, negative, zero). Conformance: targets forced through the library's own draw (zero-width gaussian) incl. exact-equality floats, negative and sub-unit targets, second blocks and end-group starts; the spec keeps the branch of the stop comparison that was not taken, so a divergence of the stop rule is told apart from a divergence of a selection law (an explanation by the branch not taken is dropped when the very next event refutes it). Refinement: TLC checks on every model instance that GenerateMC implements the abstract accumulation machine spec/FirstCrossing.tla (PROPERTY ImplementsFirstCrossing of spec/GenerateRefinesFC.tla), whose theorem - every finished accumulation stopped at the first partial sum exceeding its limit - is proved for all masses and targets by the TLA+ proof system (spec/proofs/FirstCrossingProofs.tla, re-proved in every run).",
+    "C07": "Design: TLC checks StopRule and GrowOnlyBelowTarget on GenerateMC over a target grid bracketing every cumulative mass (+-1 mDa, equal, negative, zero). Conformance: targets forced through the library's own draw (zero-width gaussian) incl. exact-equality floats, negative and sub-unit targets, second blocks and end-group starts; the spec keeps the branch of the stop comparison that was not taken, so a divergence of the stop rule is told apart from a divergence of a selection law (an explanation by the branch not taken is dropped when the very next event refutes it). Refinement: TLC checks on every model instance that GenerateMC implements the abstract accumulation machine spec/FirstCrossing.tla (PROPERTY ImplementsFirstCrossing of spec/GenerateRefinesFC.tla), whose theorem - every finished accumulation stopped at the first partial sum exceeding its limit - is proved for all masses and targets by the TLA+ proof system (spec/proofs/FirstCrossingProofs.tla, re-proved in every run); the same inductive invariant is discharged symbolically by Apalache (spec/apalache/FirstCrossingApa.tla: holds initially, preserved by every step). The drawn target of a zero-width law must be the written value (the observation point is what the draw returns).",
     "C08": "Design: LawNormalised on every decision state. Conformance: at EVERY call of rng.choice on every explored path the candidate list and the probability vector (as exact fractions) must equal the spec's candidates and Law / TransLaw, options of probability zero are never taken, for all eight decision kinds x {forced, uniform, zero-next-to-nonzero, unequal} (census enforced as a vacuity guard); complete trees additionally have recorded probability mass exactly 1, so the exact distribution over molecules equals the spec's.",
 }.items():
     CHECKS[_p] = dict(category="model_checking", text=_t, design_ref="DESIGN.md 4/" + _p, note=_GEN_NOTE, technique=_GEN_TECH)
@@ -88,7 +88,7 @@ CHECKS["C13"] = dict(
          "validated node by node by TLC (EnsembleTrace.tla): every yielded member must be a behaviour of the picked component's machine and equal its result; the "
          "iteration must end exactly when the model ends; non-generable systems must refuse on both entry points. EnsembleMC model-checks the machine "
          "(IStop, OnlyCompleteMembers, AccumulatesMemberMass, Termination) and TLC checks that it implements spec/FirstCrossing.tla with the non-strict comparison "
-         "(spec/EnsembleRefinesFC.tla); FirstCrossing's theorem is proved unbounded by tlapm in every run.",
+         "(spec/EnsembleRefinesFC.tla); FirstCrossing's theorem is proved unbounded by tlapm in every run and its inductive invariant is discharged symbolically by Apalache (spec/apalache/FirstCrossingApa.tla).",
     design_ref="DESIGN.md 4/C13",
     note="Trusted: TLC, RDKit (reading molecules), the scripted generator. System.generator's rng is passed through the property's fget.",
     technique="TLA+ spec (Ensemble.tla with parametrised INSTANCE Generate); implementation choice trees validated by TLC",
